@@ -88,6 +88,11 @@ fn find_match(name: &String, rule_tokens: &Vec<Rc<TokenInfo>>, tokinizer: &Tokin
     let mut target_token_index = 0;
     let mut start_token_index  = 0;
     let mut fields             = BTreeMap::new();
+
+    /* A pattern without any token (an empty or comment-only pattern string) matches nothing */
+    if total_rule_token == 0 {
+        return (usize::MAX, rule_token_index, target_token_index, start_token_index, fields);
+    }
     
     while let Some(token) = tokinizer.token_infos.get(target_token_index) {
         #[cfg(feature = "verif")]
